@@ -490,7 +490,7 @@ const libSrc = "{% macro box(v) %}[{{ v }}]{% endmacro %}{% macro tag(v, t = 'b'
 
 // libSrcSpy is the macro library with fallible callbacks inside the macro bodies (built-in filter,
 // spy function, spy filter, test), so that a failure inside an imported macro is a reachable position.
-const libSrcSpy = "{% macro box(v) %}[{{ v|upper }}{{ spy('lib-box-body#1', 1) }}]{% endmacro %}{% macro tag(v, t = 'b') %}<{{ t }}>{% if v is spyt('lib-tag-body#2') %}{{ v|spyf('lib-tag-body#3') }}{% else %}{{ v|lower }}{% endif %}</{{ t }}>{% endmacro %}"
+const libSrcSpy = "{% set libv = spy('lib-top#0', 'lv')|upper %}{% macro box(v) %}[{{ v|upper }}{{ spy('lib-box-body#1', 1) }}]{% endmacro %}{% macro tag(v, t = 'b') %}<{{ t }}>{% if v is spyt('lib-tag-body#2') %}{{ v|spyf('lib-tag-body#3') }}{% else %}{{ v|lower }}{% endif %}</{{ t }}>{% endmacro %}"
 
 func defaultCtx(r *R) *Val {
 	s := func(x string) *Val { return &Val{T: "str", S: x} }
